@@ -340,6 +340,7 @@ def check(prop_id, tier, seed):
         "assumptions": cfg.get("assumptions", []),
         "wall_s": wall, "violations": len(violations),
     }
+    build.drop_scratch_bins()
     evdir = os.environ.get("HGV_EVIDENCE_DIR") or os.path.join(VERIF, "evidence")
     os.makedirs(evdir, exist_ok=True)
     json.dump(ev, open(os.path.join(evdir, prop_id + ".json"), "w"), indent=1)
